@@ -299,7 +299,8 @@ fn make_transparent_impl
             let id = &field.ident;
             quote!(#cbor_len(&self.#id, __ctx777))
         } else {
-            quote!(#cbor_len(&self.0, __ctx777))
+            let pos = syn::Index::from(field.pos);
+            quote!(#cbor_len(&self.#pos, __ctx777))
         };
 
     Ok(quote! {
